@@ -2,7 +2,7 @@
    Statements only: for every raw body, decoder (any table of how much output is available after k input bytes, any
    output), framing, chunk vector, read1 tape (any sizes the raw source hands out), decode flag, call sequence. *)
 From Coq Require Import List NArith Arith Bool.
-From V Require Import model.ReadBody proofs.ReadBody_proofs gen.Gen_Read corr.Run_C12.
+From V Require Import model.ReadBody proofs.ReadBody_proofs proofs.ReadBody_term gen.Gen_Read corr.Run_C12.
 Import ListNotations.
 
 (* the facts regenerated from the source on this run: read() returns the buffered bytes first; stream() switches to
@@ -45,6 +45,25 @@ Theorem drained_returns_everything_partial : forall D hdc dc raw chunked chunks 
   concat ps ++ concat fs = target D hdc dc raw.
 Proof. intros. eapply ReadBody_proofs.drained_returns_everything; eauto. Qed.
 Print Assumptions drained_returns_everything_partial.
+
+
+(* stream(amt) / iteration after any calls: the loop ends, and it ends with the source dry and nothing buffered - so the
+   concatenation of everything returned is the payload.  (For a fresh chunked response stream takes the read_chunked
+   path: the chunk sizes must add up to the body, as any complete response's do.) *)
+Theorem stream_returns_everything : forall D hdc dc raw chunked chunks tape cs amt ps fs s1 s2,
+  dec_ok D raw -> amt <> Some 0 -> (chunked = true -> list_sum chunks = length raw) ->
+  run_calls D hdc dc rb sg fe (s0 raw chunks tape) cs = (ps, s1) ->
+  run_finish D hdc dc rb sg fe chunked s1 (FStream amt) = (fs, s2) ->
+  concat ps ++ concat fs = target D hdc dc raw.
+Proof. intros. eapply ReadBody_term.stream_returns_everything; eauto. Qed.
+Print Assumptions stream_returns_everything.
+
+(* read(n) returns exactly n bytes unless the body is exhausted by it *)
+Theorem read_n_exact : forall D hdc dc raw s n piece s',
+  wf D hdc dc raw s -> 1 <= n -> read D hdc dc rb fe s (Some n) = (piece, s') ->
+  length piece = n \/ (s_pos s' = length raw /\ s_buf s' = []).
+Proof. intros. eapply ReadBody_term.read_n_exact; eauto. Qed.
+Print Assumptions read_n_exact.
 
 (* read_chunked / stream on a fresh chunked response: everything is returned and no piece is empty *)
 Theorem read_chunked_returns_everything : forall D hdc dc raw chunks tape amt fs s2,
